@@ -14,7 +14,6 @@ from vlib import *
 from checks import c19_runner as R
 
 CL_TEMP = "inplace-temp-left-after-direct-exit"
-CL_ZSTD = "inplace-zstd-rewritten-uncompressed"
 JOBS = max(1, int(os.environ.get("VERIF_JOBS", "2")))      # parallel traced runs / coqc processes
 OC = {"Missing": 0, "RefusedEarly": 1, "CreateFails": 2, "RefusedAfterCreate": 3, "StreamFails": 4, "CloseFails": 5,
       "RenameFails": 6, "ChmodFails": 7, "Succeeds": 8}
@@ -41,6 +40,36 @@ def alone(ctx, args, name, content, extra=()):
         return st, out, err
     finally:
         shutil.rmtree(d, ignore_errors=True)
+
+
+ZSTD_MAGIC = b"\x28\xb5\x2f\xfd"
+
+
+def zstd(ctx, data, decompress=False):
+    rc, out, err = sh([ctx.implrun(), "zstd-decompress" if decompress else "zstd-compress"], inp=data, binary=True, timeout=60)
+    return out if rc == 0 else None
+
+
+def encoding_of(name, args):
+    if name.endswith(".gz") or "--gzin" in args:
+        return "gz"
+    if name.endswith(".zst") or "--zstdin" in args:
+        return "zst"
+    if name.endswith(".z") or "--zin" in args:
+        return "z"
+    return None
+
+
+def decompress(ctx, enc, b):
+    try:
+        if enc == "gz":
+            return gzip.decompress(b)
+        if enc == "z":
+            return zlib.decompress(b)
+        if enc == "zst":
+            return zstd(ctx, b, decompress=True) if b.startswith(ZSTD_MAGIC) else None
+    except Exception:
+        return None
 
 
 def snap_files(res):
@@ -167,6 +196,12 @@ def make_scenarios(ctx):
     S.append(Scenario("success:gzin-flag", ["--gzin", "--icsv", "--ocsv", "put", "$d=2"], [("plainname", gzip.compress(plain, mtime=0), 0o600)], ["Succeeds"]))
     S.append(Scenario("success:zlib-suffix", ["--icsv", "--ojson", "cat"], [("w.csv.z", zlib.compress(plain), 0o640)], ["Succeeds"]))
     S.append(Scenario("success:zin-flag", ["--zin", "--icsv", "--ojson", "cat"], [("w2", zlib.compress(plain), 0o640)], ["Succeeds"]))
+    zplain = zstd(ctx, plain)
+    if zplain and zplain.startswith(ZSTD_MAGIC):
+        S.append(Scenario("success:zstd-suffix", ["--icsv", "--ocsv", "put", "$d=3"], [("k.csv.zst", zplain, 0o640), ("h2.csv", plain, 0o600)], ["Succeeds", "Succeeds"]))
+        S.append(Scenario("success:zstdin-flag", ["--zstdin", "--icsv", "--ojson", "cat"], [("k2", zplain, 0o604)], ["Succeeds"]))
+    else:
+        ctx.cov["zstd"] = "implrun zstd-compress unavailable"
     # failures that come back through the error path, in the MIDDLE file
     bad_csv = b"a,b,c\n1,2,3\n4,5\n6,7,8\n"
     f3 = three()
@@ -199,19 +234,19 @@ def expected_transforms(ctx, sc):
         st, out, err = alone(ctx, sc.args, n, content)
         if st != 0:
             continue
-        enc = "gz" if (n.endswith(".gz") or "--gzin" in sc.args) else "z" if (n.endswith(".z") or "--zin" in sc.args) else None
+        enc = encoding_of(n, sc.args)
         if enc is None:
             sc.transformed[n] = out
         else:
             r = R.run_inplace(ctx, [(n, content, mode)], sc.args)
             b = snap_files(r).get(n, (b"", 0))[0]
-            try:
-                plain = gzip.decompress(b) if enc == "gz" else zlib.decompress(b)
-            except Exception:
-                plain = None
+            plain = decompress(ctx, enc, b)
             if plain != out:
-                ctx.violation({"class": "inplace-recompression", "scenario": sc.name, "file": n, "what": "after -I the file does not decompress to what the command prints without -I",
-                               "args": sc.args, "observed_head": b[:60].hex(), "expected_plain": out[:200].decode("latin1")})
+                ctx.violation({"class": "inplace-recompression", "scenario": sc.name, "file": n, "encoding": enc, "status": r["status"],
+                               "what": "after -I a compressed input must be compressed the same way and decompress to what the command prints without -I "
+                                       "(zstd: repaired by /repo 4dcee46d7; gzip/zlib: always)",
+                               "how": "mlr -I " + " ".join(sc.args) + " " + n, "args": sc.args, "input_hex": content.hex(),
+                               "observed_head": b[:80].decode("latin1"), "observed_hex_head": b[:16].hex(), "expected_plain": out[:200].decode("latin1")})
             sc.transformed[n] = b
 
 
@@ -219,7 +254,7 @@ def run(ctx):
     ctx.cov["rule"] = ("scenarios = (verb chain, 1-3 files with distinct modes 0640/0600/0755/0644/0604, outcome per file): success (csv->json, per-file header/"
                        "head/NR/FNR/FILENAME, begin/end per file, sort, .gz/.z suffix, --gzin/--zin), failure in the MIDDLE file through the error path "
                        "(malformed CSV, CSV schema change in the writer, DSL redirect error), direct-exit DSL failures (asserting_*, UDF return type), refusals "
-                       "(bzip2, --prepipe, --prepipex, missing file, URL-looking name, zstd); each returned run, plus ptrace fault injection of one failing "
+                       "(bzip2, --prepipe, --prepipex, missing file, URL-looking name); zstd by suffix and --zstdin rewritten compressed; each returned run, plus ptrace fault injection of one failing "
                        "system call (ENOSPC write, EACCES temp create, EIO close, EXDEV rename, EPERM chmod; first and middle file), plus SIGKILL at the entry of "
                        "EVERY file system call of 2-3-file runs (all crash points; subsampled for the multi-chunk output in quick tier). Compared: bytes+mode of "
                        "every file in the directory vs Model.exec / the set of Model.crash_state prefixes, under vm_compute.")
@@ -258,7 +293,6 @@ def run(ctx):
             expected_transforms(ctx, sc)
             res = R.run_inplace(ctx, sc.files, sc.args, names=sc.names)
             observe(sc, res, False, "mlr -I " + " ".join(sc.args) + " " + " ".join(sc.names))
-        zstd_probe(ctx)
         # ---- fault injection: one failing system call
         rng = ctx.rng
         inj_sc = [s for s in S if s.name in ("success:csv-to-json", "success:gzin-flag")]      # files of one scenario have the same syscall structure
@@ -333,35 +367,15 @@ def run(ctx):
                        "status": res["status"], "observed": {n: [len(b), oct(m), b[:60].decode("latin1")] for n, (b, m) in snap_files(res).items()}}, found_input=False)
 
 
-def zstd_probe(ctx):
-    """zstd input: decompressed in-process on read; in-place mode must either re-compress or refuse (property: inputs that cannot be
-    updated in place are refused before anything is modified)."""
-    plain = b"x=1\nx=2\n"
-    rc, out, err = sh([ctx.implrun(), "zstd-compress"], inp=plain, binary=True, timeout=60)
-    if rc != 0 or not out.startswith(b"\x28\xb5\x2f\xfd"):
-        ctx.cov["zstd_probe"] = "implrun zstd-compress unavailable"
-        return
-    for name, args in (("k.zst", ["put", "$z=3"]), ("k", ["--zstdin", "put", "$z=3"])):
-        res = R.run_inplace(ctx, [(name, out, 0o640)], args)
-        ctx.count(("zstd", name))
-        ctx.dist("returned:zstd")
-        b, m = snap_files(res).get(name, (b"", 0))
-        refused = res["status"] != 0 and b == out
-        recompressed = b.startswith(b"\x28\xb5\x2f\xfd")
-        ctx.cov.setdefault("zstd_probe", {})[name] = {"status": res["status"], "refused": refused, "recompressed": recompressed}
-        if not refused and not recompressed:
-            st2, o2, e2 = alone(ctx, args, name, b)
-            ctx.violation({"class": CL_ZSTD, "how": "mlr -I " + " ".join(args) + " " + name, "input_hex": out.hex(), "status": res["status"],
-                           "observed": b[:200].decode("latin1"), "expected": "refusal with the file unchanged (as for bzip2), or a zstd-compressed result",
-                           "what": "a zstd-compressed input is replaced by UNCOMPRESSED text under the same name; the same command can no longer read the file",
-                           "second_run_status": st2, "second_run_stderr": e2.decode("latin1")[-200:]})
-            return
-
-
 def replay(ctx, path):
     obj = json.loads(Path(path).read_text())
-    if obj.get("class") == CL_ZSTD:
-        zstd_probe(ctx)
+    if obj.get("class") in ("inplace-recompression", "inplace-zstd-rewritten-uncompressed"):
+        content = bytes.fromhex(obj["input_hex"])
+        name = obj.get("file", "k.zst")
+        sc = Scenario(obj.get("scenario", "replay"), obj.get("args", ["put", "$z=3"]), [(name, content, 0o640)], ["Succeeds"])
+        expected_transforms(ctx, sc)          # reports again if the result is still not a compressed form of the expected text
+        ctx.count(("replay", path))
+        print("replay: mlr -I %s %s -> %s" % (" ".join(sc.args), name, "still fails" if ctx.violations else "rewritten compressed"))
         return
     if "files" not in obj:
         print("replay: nothing replayable in", path)
